@@ -1,5 +1,6 @@
 """C12 — A copy is equivalent to its original and shares nothing with it."""
 from contracts import misc_small  # noqa
+from contracts import c12_rxn_arith as ARITH
 from props._generic import run_property, replay_with_driver
 
 LEVEL = "other"
@@ -7,7 +8,7 @@ KEYS = ["Reaction.copy", "Model.__setstate__", "Reaction.update_variable_bounds"
 
 
 def run(rep):
-    run_property(rep, KEYS, explanation=(
+    run_property(rep, KEYS, more=list(ARITH.GROUPS), lemmas=ARITH.lemmas, explanation=(
         "Deductive part: Reaction.copy is proved (two loop invariants over the recorded (member, model) pairs, built from the "
         "reaction's metabolites and genes in any iteration order) to return a different, detached object and to leave EVERY model "
         "pointer of the operand, its metabolites and its genes as found on normal return - also for a reaction that has been removed "
